@@ -205,6 +205,10 @@ func ProfileFor(focus, arm string) Profile {
 		if focus == "C07" && arm == "tiny" {
 			p.Cache = "tiny"
 		}
+		if arm == "prefetch" || arm == "tiny" {
+			// concurrent stores, lookups and evictions: scheduling points on
+			p.Yields = true
+		}
 		p.IpMarker = 0.7
 		p.ECS = 0.5
 		p.NUpstreams = [2]int{1, 2}
@@ -246,6 +250,11 @@ func Generate(seed uint64, focus, arm string) *plan.Plan {
 		p.Knobs.PassDoubleRelease = true
 		p.Knobs.Quarantine = 0
 	}
+	// write batch size of the memory cache's backend: with the shipped 64 a
+	// short run never sees the deletion listener run for replaced or evicted
+	// entries (own stream again)
+	r3 := &rng{s: seed*0xA24BAED4963EE407 + 0x6f74746572}
+	p.Knobs.OtterBatch = []int{0, 1, 1, 4, 16}[r3.intn(5)]
 	return p
 }
 
@@ -1206,11 +1215,24 @@ func genCacheOps(r *rng, p *plan.Plan, focus, arm string) {
 		t0 := r.i64(20_000, 2_000_000)
 		nops := r.rng(3, 30)
 		span := life * 1_000_000 * int64(r.rng(1, 3))
+		// a real burst: several hits while one refresh is in flight and when
+		// its answer is stored (the spread follows the refresh's duration)
+		burstAt, burstSpread := int64(0), int64(0)
+		if (focus == "C19" || focus == "C07" && arm != "ample") && r.p(0.5) {
+			burstAt = t0 + life*1_000_000*int64(76+r.intn(20))/100
+			rd := t.Acts[len(t.Acts)-1].DelayUs
+			if len(t.Acts) > 1 {
+				rd = t.Acts[1].DelayUs
+			}
+			burstSpread = 2*rd + 3000
+		}
 		for i := 0; i < nops; i++ {
 			var at int64
 			switch {
 			case i == 0:
 				at = t0
+			case burstAt > 0 && r.p(0.6):
+				at = burstAt + r.i64(0, burstSpread)
 			case focus == "C19" && r.p(0.7):
 				// inside / around the last quarter, in bursts
 				at = t0 + life*1_000_000*int64(70+r.intn(32))/100 + r.i64(0, 3000)
